@@ -27,7 +27,7 @@ Paths == {"radial", "spiral"}
 Kernels == {"sinc", "expm1w", "log1pw", "wsin"}
 
 Init == /\ layout \in Layouts /\ pc = "Eval" /\ k = <<>> /\ lims = <<>> /\ res = <<>>
-        /\ cfg \in [method : Methods, path : Paths, order : {1, 2, 4, 8}, ratio : {2, 4, 16}, kernel : Kernels]
+        /\ cfg \in [method : Methods, path : Paths, order : {1, 2, 4, 8}, ratio : {2, 4, 12, 16}, kernel : Kernels]
 
 Tag(p) == IF Singular(p) THEN <<"nan", p>> ELSE <<"f", p>>
 Eval == pc = "Eval" /\ pc' = "Find" /\ res' = [i \in 1..Len(layout) |-> Tag(layout[i])] /\ UNCHANGED <<layout, k, lims, cfg>>
